@@ -285,6 +285,9 @@ fn op_group(op: &Op) -> &'static str {
     }
 }
 
+fn why_family(why: &str) -> &'static str {
+    match why { "spill-without-anchor" | "spill-outside-extent" => "stale-spill", "extents-overlap" | "extent-off-grid" => "extent-conflict", _ => "extent-not-full" }
+}
 /// undo(x) / redo(x) / failed:x -> the family of x
 fn ctx_family(ctx: &str) -> String {
     let inner = ctx.trim_start_matches("failed:");
@@ -364,7 +367,7 @@ fn main() {
             let ctx: String = match &op {
                 Op::Undo => { if ok { let g = done_stack.pop().unwrap_or("?"); undone_stack.push(g); format!("undo({g})") } else { "undo(-)".into() } }
                 Op::Redo => { if ok { let g = undone_stack.pop().unwrap_or("?"); done_stack.push(g); format!("redo({g})") } else { "redo(-)".into() } }
-                o => { if d1.0 == d0.0 + 1 { done_stack.push(op_group(o)); undone_stack.clear(); } if ok { op_group(o).to_string() } else { format!("failed:{}", op_group(o)) } }
+                o => { if d1.0 > d0.0 { for _ in d0.0..d1.0 { done_stack.push(op_group(o)); } undone_stack.clear(); } if ok { op_group(o).to_string() } else { format!("failed:{}", op_group(o)) } }
             };
             if catch_unwind(AssertUnwindSafe(|| m.evaluate())).is_err() {
                 or.fail(&format!("panic:evaluate:{ctx}"), json!({"history": ops_json(&ops_done)}), "evaluate panicked".into()); break 'hist;
@@ -383,7 +386,7 @@ fn main() {
                 if cells.iter().any(|x| kind_letter(Some(x.2)) == 'S') { with_spill += 1; }
                 if cells.iter().any(|x| matches!(x.2, Cell::ArrayFormula { v: FormulaValue::Error { ei: Error::SPILL, .. }, .. })) { blocked_states += 1; }
                 if !e || !f {
-                    let class = if allow_cse { format!("cse-history:{}", ctx_family(&ctx)) } else { format!("{why}:{ctx}") };
+                    let class = if allow_cse { format!("cse-history:{}", ctx_family(&ctx)) } else { format!("{}:{}", why_family(&why), ctx_family(&ctx)) };
                     or.fail(&class, json!({"history": ops_json(&ops_done), "sheet": si, "state": sheet_wire(ws, true)}), format!("after {ctx} and evaluate: {why} on sheet {si}"));
                     break 'hist; // the broken state would echo through the rest of the history
                 }
@@ -394,7 +397,7 @@ fn main() {
                 if ncells <= 400 { continue; }
                 let (e, _f, why) = spill_bits(ws);
                 or.checked += 1;
-                let class = if allow_cse { format!("cse-history:{}", ctx_family(&ctx)) } else { format!("{why}:{ctx}") };
+                let class = if allow_cse { format!("cse-history:{}", ctx_family(&ctx)) } else { format!("{}:{}", why_family(&why), ctx_family(&ctx)) };
                 if !e { or.fail(&class, json!({"history": ops_json(&ops_done), "sheet": si}), format!("after {ctx} and evaluate: {why} on sheet {si} (large sheet)")); break 'hist; }
             }
             // a typed input changes no other user content of its sheet
